@@ -67,7 +67,7 @@ Silent(c, s) ==
                (* the pending-events cap is reached: signalled as soon as noticed, the window stays *)
                THEN Emit(t, "cap")
                (* a further Add inside the window: the window doubles (up to MaxDelay) and restarts from here *)
-               ELSE LET nl == Min2(2 * s.len, c.M) IN [t EXCEPT !.len = nl, !.end = c.now + nl]}
+               ELSE LET nl == IF s.len >= c.M THEN c.M ELSE Min2(2 * s.len, c.M) IN [t EXCEPT !.len = nl, !.end = c.now + nl]}
      ELSE {})
   \cup
   (* the window ends: one signal for everything that arrived inside it, back to idle *)
